@@ -529,11 +529,16 @@ def execute(plan, ctx):
     calls = {}
     for ci, c in enumerate(log):
         owners = [f for f in range(len(train_set)) if c['data'] is train_set[f][0]]
-        if len(owners) != 1:
-            ctx.violation('noninterf.fit_input', f'{g}:B:fitter-input-not-a-training-set',
-                          f'a fitter was handed data that is not the training RDMs of exactly one fold (matches: {owners})')
-            return
-        calls.setdefault(owners[0], []).append(ci)
+        if not owners:      # tolerate a fit on a *copy* of a fold's training data (equal content)
+            owners = [f for f in range(len(train_set))
+                      if c['fp'][:3] == (np.asarray(train_set[f][0].dissimilarities).tobytes(),
+                                         tuple(uid_seqs(train_set[f][0])[0]), tuple(uid_seqs(train_set[f][0])[1]))]
+        if len(owners) >= 1:
+            calls.setdefault(owners[0], []).append(ci)
+        else:
+            # the data handed to the fitter is no fold's training set; whether that lets test data leak is decided below on
+            # the parameters crossval actually uses (altering test-only data must not change them)
+            ctx.probe('fitter_input_not_a_training_set')
     nfolds = len(train_set)
     folds = ([nfolds - 1] + list(range(nfolds - 1)))[:2 if 'weighted_optimize' in plan['models'] else 4]
     for f in folds:
